@@ -458,6 +458,13 @@ def check_e2e(ck, name, spec, X, Y, cfg, data_kind, collect=None):
         if bad is None and not eqf(r, float(stats[i])):
             bad = i
     ties = sum(1 for s in stats if s == obs)
+    # a re-split whose distance (through fit + compare) EQUALS the observed one must be logged with that very value: the
+    # p-value counts `null >= observed`, so a tie that differs in the last bit is silently dropped from b
+    lost = None if name == "MMD" else next((i for i, r in enumerate(recomputed) if r == obs and float(stats[i]) != obs), None)  # MMD: compare uses the term cached at fit, the stand-alone statistic recomputes it (last-bit differences are legitimate)
+    if lost is not None and bad is None:
+        ck.violation(dict(clause="null-statistic", detector=name, cause="tie-with-observed-lost"),
+                     dict(detail, what="a re-split with exactly the observed distance (same function, same parameters) is logged with another value: the tie is not counted in b",
+                          index=lost, permutation=np.asarray(perms[lost]).tolist(), logged=float(stats[lost]), observed=obs, recomputed=recomputed[lost]))
     nontriv = len(set(np.round(stats[~np.isnan(stats)], 12))) > 1
     ck.case(dict(kind="e2e", detector=name, spec=spec, n=n, m=m, data=data_kind, cfg=cfg, null_head=[float(s) for s in stats[:3]]),
             nontrivial=nontriv, key=repr((name, spec, detail["X_ref"], detail["X_test"], cfg)))
@@ -714,6 +721,22 @@ def run(ck: Check):
             if tiny:
                 cfg["method"] = rng.choice(["conservative", "conservative", "exact", "estimate", "approximate"])
             check_e2e(ck, name, spec, X, Y, cfg, kind, collect=e2e)
+    # deterministic end-to-end cases (no draw from the generator):
+    # (a) an INTEGER reference with a float test batch: the re-splits are re-splits of the pooled VALUES;
+    # (b) test batch with the same histogram as the reference (frequencies adding up to 1 + 2.2e-16): the observed
+    #     statistic logged by the callback is the distance compare returned, and re-splits with the same two histograms tie;
+    # (c) num_permutations at the largest accepted value (10^6) on 2 + 2 samples (24 orderings are enumerated): 'auto' is
+    #     'exact' unless the number of permutations EXCEEDS the maximum
+    Xi, Yf = np.array([0, 3, 1, 4, 2]), np.array([2.5, 0.25, 3.75])
+    for nm_ in ("EMD", "EnergyDistance"):
+        check_e2e(ck, nm_, {}, Xi, Yf, dict(num_permutations=math.factorial(8), method="conservative", num_jobs=1, random_state=3), "int-reference-float-test")
+        check_e2e(ck, nm_, {}, Xi, Yf, dict(num_permutations=9, method="exact", num_jobs=1, random_state=3), "int-reference-float-test")
+    Xh = np.array([0.0, 0.0, 1.0, 1.0, 1.0, 2.0, 3.0, 4.0, 5.0])
+    for nm_ in ("BhattacharyyaDistance", "HINormalizedComplement", "HellingerDistance"):
+        check_e2e(ck, nm_, dict(num_bins=6), Xh, Xh[::-1].copy(), dict(num_permutations=200, method="conservative", num_jobs=2, random_state=31), "same-histogram")
+    for npm in (999_999, 1_000_000):
+        for meth in ("auto", "exact"):
+            check_e2e(ck, "EMD", {}, np.array([0.0, 1.0]), np.array([2.0, 3.5]), dict(num_permutations=npm, method=meth, num_jobs=2, random_state=31), "max-num-permutations")
     corr_e2e(ck, e2e)
     corr_enumeration(ck)
 
